@@ -168,6 +168,16 @@ fn verif_grid() {
         let want = vec![r#"{"u.what":"noonish"}"#, r#"{"u.what":"newyear"}"#];
         match r { Outcome::Lines(l, _) => if l.iter().map(|s| s.as_str()).collect::<Vec<_>>() == want { Ok(()) } else { Err(format!("join on TIMESTAMP keys printed {:?}, expected {:?}", l, want)) }, other => Err(format!("{:?}", other)) }
     });
+    // a joined file that cannot be read to its end is an error too - or the rows after the unreadable line still join
+    g.case("joined-file-unreadable-line", || {
+        let mut content = b("h=alpha site=eu c=1\n");
+        content.extend_from_slice(&[0xff, 0xfe, b'\n']);
+        content.extend_from_slice(b"h=beta site=us c=2\n");
+        let file = write_temp("joined", &content);
+        let r = q(DEF, &format!("SELECT user, hosts.site FROM t INNER JOIN hosts::'{}' ON t.host = hosts.name", file.display()), &["u=ann h=alpha c=1", "u=bob h=beta c=2"]);
+        let _ = std::fs::remove_file(&file);
+        match r { Outcome::Error(_) => Ok(()), Outcome::Lines(l, _) => if l.len() == 2 { Ok(()) } else { Err(format!("the joined file has a line that is not valid UTF-8 before the row of beta: no error, and the join printed {:?}", l)) }, other => Err(format!("{:?}", other)) }
+    });
     // a missing join column or joined file is an error, never an empty result
     g.case("missing-file", || match q(DEF, "SELECT user FROM t INNER JOIN hosts::'/nonexistent/verif_grid_no_such_file' ON t.host = hosts.name", &["u=ann h=alpha c=1"]) {
         Outcome::Error(_) => Ok(()), other => Err(format!("a missing joined file gives {:?}", other)) });
